@@ -116,9 +116,60 @@ fn part_entry_points(thorough: bool) -> Acc {
             for (d, am) in &docs {
                 entry_points(&mut acc, q, d, am);
             }
+            kept_query_over_documents(&mut acc, q, docs.iter().map(|x| &x.0));
             acc
         })
         .reduce(Acc::new, Acc::merge)
+}
+
+fn pv_parsed(jq: &JpQuery, d: &Value) -> String {
+    match std::panic::catch_unwind(std::panic::AssertUnwindSafe(|| jsonpath_rust::query::js_path_process(jq, d).map(|v| v.into_iter().map(|r| (r.clone().path(), r.val().to_string())).collect::<Vec<_>>()))) {
+        Ok(Ok(v)) => format!("{:?}", v),
+        Ok(Err(e)) => format!("Err({})", e),
+        Err(p) => format!("PANIC({})", imp::panic_text(p)),
+    }
+}
+
+/// One parsed query is kept while the documents come and go in one variable (its root keeps its address, its
+/// content changes): each evaluation must give what the query string gives on that content.
+fn kept_query_over_documents<'a>(acc: &mut Acc, q: &str, docs: impl Iterator<Item = &'a Value>) {
+    let kept = match imp::parse(q) {
+        Ok(Ok(jq)) => jq,
+        _ => return,
+    };
+    let mut slot = Value::Null;
+    let mut history: Vec<Value> = vec![];
+    for d in docs {
+        slot.clone_from(d);
+        acc.evals += 1;
+        acc.transitions += 1;
+        let a = pv_parsed(&kept, &slot);
+        let b = pv(q, d);
+        if a != b {
+            let prev = history.last().cloned().unwrap_or(Value::Null);
+            acc.viol(
+                format!("{}: parsed once and evaluated on a variable that held {} before and holds {} now, it returns {} ; the query string on that document returns {}", q, prev, d, a, b),
+                json!({"kind": "kept-query", "class": "kept parsed query over successive documents in one variable", "query": q, "docs": [prev, d]}),
+            );
+            return;
+        }
+        history.push(d.clone());
+        if history.len() > 1 {
+            history.remove(0);
+        }
+    }
+    acc.bump("kept_query_document_sequences", 1);
+}
+
+pub fn replay_kept_query(case: &Value, _run: &Run) -> Acc {
+    let mut acc = Acc::new();
+    let q = case["query"].as_str().unwrap_or("$");
+    let docs: Vec<Value> = case["docs"].as_array().cloned().unwrap_or_default();
+    kept_query_over_documents(&mut acc, q, docs.iter());
+    for d in &docs {
+        println!("query {} on {} -> {}", q, d, pv(q, d));
+    }
+    acc
 }
 
 /// part 1b: the string entry points on every edge of the nodelist transition system (the explorations of C01-C03
@@ -176,6 +227,10 @@ pub const QUERIES: [&str; 8] = [
     "$[?count(@.*)>1||@.s=='ab']",
 ];
 
+/// name selectors with an escape, pairwise different texts of the same length (anything keyed on the identity of a
+/// selector's text instead of its content, e.g. its address, confuses them once one parse has been dropped)
+pub const ESCAPED: [&str; 3] = ["$['a\\\\b']", "$['c\\\\d']", "$..['e\\\\f']"];
+
 /// queries the parser must reject after the grammar accepted them (model-building errors inside a filter) and
 /// plain syntax errors: string entry points only; their baseline is an Err
 pub const REJECTED: [&str; 5] = ["$[?length(@.a,@.b)==1]", "$[?count(1)>0]", "$[?match(@.s,'a')==true]", "$[?@.n==9007199254740993]", "$[?@.n==]"];
@@ -183,7 +238,7 @@ pub const REJECTED: [&str; 5] = ["$[?length(@.a,@.b)==1]", "$[?count(1)>0]", "$[
 pub fn hist_docs() -> Vec<Value> {
     vec![
         json!([{"s": "a", "n": 1, "a": [1]}, {"s": "ab", "n": 2}, {"s": "ba", "n": 3, "a": {"a": 2}}, "a"]),
-        json!({"p": "a.*", "x": {"s": "ab", "n": 5}, "y": {"s": "b", "a": 1}, "z": [{"s": "a"}]}),
+        json!({"p": "a.*", "x": {"s": "ab", "n": 5}, "y": {"s": "b", "a": 1}, "z": [{"s": "a"}], "a\\b": 1, "c\\d": 2, "e\\f": 3}),
     ]
 }
 
@@ -206,6 +261,11 @@ pub fn ops() -> Vec<Op> {
     for (i, _) in REJECTED.iter().enumerate() {
         v.push(Op { entry: (i % 3) as u8, query: (QUERIES.len() + i) as u8, doc: (i % 2) as u8 });
     }
+    for (i, _) in ESCAPED.iter().enumerate() {
+        for entry in 0..4u8 {
+            v.push(Op { entry, query: (QUERIES.len() + REJECTED.len() + i) as u8, doc: 1 });
+        }
+    }
     v
 }
 
@@ -226,7 +286,7 @@ impl HistCtx {
         HistCtx::with_docs(hist_docs())
     }
     pub fn with_docs(docs: Vec<Value>) -> HistCtx {
-        HistCtx::with(docs, QUERIES.iter().chain(REJECTED.iter()).map(|q| q.to_string()).collect())
+        HistCtx::with(docs, QUERIES.iter().chain(REJECTED.iter()).chain(ESCAPED.iter()).map(|q| q.to_string()).collect())
     }
     pub fn with(docs: Vec<Value>, queries: Vec<String>) -> HistCtx {
         let ams = docs.iter().map(AddrMap::new).collect();
@@ -277,6 +337,73 @@ pub fn history_child(idx: &[usize]) -> i32 {
     0
 }
 
+/// child process: every window of `w` operations that starts with operation `first`, in lexicographic order, in
+/// this one process; the baseline (each operation as the first one of a fresh process) is read from stdin.
+/// Prints one JSON line: {"windows": n, "evals": n, "violation": null | {...}}. `stop_after`: windows to run.
+pub fn windows_child(first: usize, w: usize) -> i32 {
+    let mut text = String::new();
+    if std::io::Read::read_to_string(&mut std::io::stdin(), &mut text).is_err() {
+        return 2;
+    }
+    let baseline: Vec<String> = match serde_json::from_str(&text) {
+        Ok(b) => b,
+        Err(_) => return 2,
+    };
+    let ctx = HistCtx::new();
+    let ops = ops();
+    let n = ops.len();
+    if baseline.len() != n || first >= n || w < 1 {
+        return 2;
+    }
+    let mut idx = vec![0usize; w];
+    idx[0] = first;
+    let mut windows = 0u64;
+    let mut evals = 0u64;
+    let mut violation = Value::Null;
+    'outer: loop {
+        for (k, i) in idx.iter().enumerate() {
+            let r = ctx.exec(ops[*i]);
+            evals += 1;
+            if r != baseline[*i] {
+                violation = json!({"window": idx, "position": k, "window_number": windows, "observed": r, "alone": baseline[*i]});
+                break 'outer;
+            }
+        }
+        windows += 1;
+        let mut k = w;
+        loop {
+            if k == 1 {
+                break 'outer;
+            }
+            k -= 1;
+            idx[k] += 1;
+            if idx[k] < n {
+                break;
+            }
+            idx[k] = 0;
+        }
+    }
+    println!("{}", json!({"windows": windows, "evals": evals, "violation": violation}));
+    0
+}
+
+fn run_windows_child(first: usize, w: usize, baseline: &[String]) -> Result<Value, String> {
+    use std::io::Write;
+    let exe = std::env::current_exe().map_err(|e| e.to_string())?;
+    let mut child = Command::new(exe)
+        .args(["history-windows", &first.to_string(), &w.to_string()])
+        .stdin(std::process::Stdio::piped())
+        .stdout(std::process::Stdio::piped())
+        .spawn()
+        .map_err(|e| e.to_string())?;
+    child.stdin.take().unwrap().write_all(serde_json::to_string(baseline).unwrap().as_bytes()).map_err(|e| e.to_string())?;
+    let out = child.wait_with_output().map_err(|e| e.to_string())?;
+    if !out.status.success() {
+        return Err(format!("windows child failed: {:?}", out.status));
+    }
+    serde_json::from_str(String::from_utf8_lossy(&out.stdout).trim()).map_err(|e| e.to_string())
+}
+
 fn run_child(idx: &[usize]) -> Result<String, String> {
     let exe = std::env::current_exe().map_err(|e| e.to_string())?;
     let mut cmd = Command::new(exe);
@@ -315,44 +442,36 @@ fn part_histories(thorough: bool) -> Result<Acc, String> {
         }
     }
     acc.bump("fresh_process_histories", (n * n + n) as u64);
-    // (b) one process: every window of length w over the alphabet
+    // (b) every window of length w over the alphabet; the windows that start with the same operation run in
+    // lexicographic order in one fresh process, so that state carried over from earlier windows (allocator state
+    // included) is part of a reproducible artefact: (first operation, window number)
     let w = if thorough { 4 } else { 3 };
-    let ctx = HistCtx::new();
-    let mut idx = vec![0usize; w];
+    let res: Vec<(usize, Result<Value, String>)> = (0..n).into_par_iter().map(|a| (a, run_windows_child(a, w, &baseline))).collect();
     let mut windows = 0u64;
-    let mut distinct = std::collections::BTreeSet::new();
-    'outer: loop {
-        for (k, i) in idx.iter().enumerate() {
-            let r = ctx.exec(ops[*i]);
-            acc.evals += 1;
-            acc.transitions += 1;
-            if r != baseline[*i] {
-                acc.viol(
-                    format!("after the history {:?} (in one process, following all earlier windows), {:?} returns {} but as the first operation of a fresh process it returns {}", &idx[..k], ops[*i], r, baseline[*i]),
-                    json!({"kind": "history", "class": "in-process window", "ops": idx[..=k].to_vec()}),
-                );
-                if acc.viol_count > 20 {
-                    break 'outer;
-                }
-            }
-            distinct.insert(*i);
-        }
-        windows += 1;
-        // next window
-        let mut k = w;
-        loop {
-            if k == 0 {
-                break 'outer;
-            }
-            k -= 1;
-            idx[k] += 1;
-            if idx[k] < n {
-                break;
-            }
-            idx[k] = 0;
+    for (a, r) in res {
+        let r = r?;
+        windows += r["windows"].as_u64().unwrap_or(0);
+        acc.evals += r["evals"].as_u64().unwrap_or(0);
+        acc.transitions += r["evals"].as_u64().unwrap_or(0);
+        let v = &r["violation"];
+        if !v.is_null() {
+            let win: Vec<usize> = v["window"].as_array().map(|x| x.iter().map(|y| y.as_u64().unwrap_or(0) as usize).collect()).unwrap_or_default();
+            let k = v["position"].as_u64().unwrap_or(0) as usize;
+            acc.viol(
+                format!(
+                    "in the process that runs all windows starting with {:?}: in window number {} = {:?}, operation {:?} returns {} but as the first operation of a fresh process it returns {}",
+                    ops[a],
+                    v["window_number"],
+                    win.iter().map(|i| format!("{:?}", ops[*i])).collect::<Vec<_>>(),
+                    win.get(k).map(|i| ops[*i]),
+                    v["observed"],
+                    v["alone"]
+                ),
+                json!({"kind": "history", "class": "in-process window", "first": a, "w": w, "ops": win[..=k.min(win.len().saturating_sub(1))].to_vec()}),
+            );
         }
     }
-    acc.states += distinct.len() as u64;
+    acc.states += n as u64;
     acc.bump("in_process_windows", windows);
     acc.bump("window_length", w as u64);
     acc.sample(|| json!({"history": [format!("{:?}", ops[0]), format!("{:?}", ops[5])], "last_result": baseline[5]}));
@@ -379,9 +498,16 @@ fn part_update_histories(thorough: bool) -> Acc {
     let docs = vec![
         json!({"elems": ["a", "b", 1], "list": ["a", 1], "p": "a"}),
         json!([{"s": "a", "n": 1}, {"s": "ab", "n": 2}]),
-        json!({"list": [[1], [2]], "elems": [[1], [3]], "k": {"s": "b"}}),
+        json!({"k": {"s": "b"}, "list": [[1], [2]], "elems": [[1], [3]]}),
     ];
     let queries = [
+        // tests rooted at `$`: their outcome changes with the document, not with the node under test
+        "$.elems[?$.list[1]]",
+        "$.elems[?!$.p||@=='a']",
+        "$[?$[0].s]",
+        "$[?$[1].n&&@.s]",
+        "$.elems[?$.k.s]",
+        "$.list[?@[?!$.k.s&&@>0]]",
         "$.elems[?in(@,$.list)]",
         "$.elems[?nin(@,$.list)]",
         "$.elems[?any_of(@,$.list[0])]",
@@ -442,11 +568,25 @@ fn part_update_histories(thorough: bool) -> Acc {
                 level = keep;
             }
             acc.states += seqs.len() as u64;
+            // parsed once per initial document and kept over every update sequence (the live document is one variable:
+            // its root has one address throughout)
+            let kept: Vec<JpQuery> = queries.iter().map(|q| imp::parse(q).expect("no panic").expect("valid query")).collect();
+            let mut live = Value::Null;
+            let mut prev_sq: Vec<(usize, usize)> = vec![];
             for sq in &seqs {
-                let mut live = d0.clone();
-                for q in queries {
-                    let _ = pv(q, &live);
+                live.clone_from(d0);
+                for (q, jq) in queries.iter().zip(kept.iter()) {
+                    let a = pv(q, &live);
+                    let k = pv_parsed(jq, &live);
+                    if a != k {
+                        acc.viol(
+                            format!("{} parsed once and kept returns {} on the restored document {} but the query string returns {}", q, k, live, a),
+                            json!({"kind": "update-history", "class": "update history (kept parsed query)", "doc": d0, "query": q,
+                                   "writes": prev_sq.iter().map(|(p, v)| json!([paths[*p], values[*v]])).chain(std::iter::once(json!(["<restore>", null]))).collect::<Vec<_>>()}),
+                        );
+                    }
                 }
+                prev_sq = sq.clone();
                 for (pi, vi) in sq {
                     let applied = std::panic::catch_unwind(std::panic::AssertUnwindSafe(|| match live.reference_mut(paths[*pi].clone()) {
                         Some(h) => {
@@ -461,10 +601,17 @@ fn part_update_histories(thorough: bool) -> Acc {
                         break;
                     }
                     let fresh: Value = serde_json::from_str(&serde_json::to_string(&live).unwrap()).unwrap();
-                    for q in queries {
+                    for (q, jq) in queries.iter().zip(kept.iter()) {
                         acc.evals += 1;
                         let a = pv(q, &live);
                         let b = pv(q, &fresh);
+                        let k = pv_parsed(jq, &live);
+                        if k != b {
+                            acc.viol(
+                                format!("after the in-place updates {:?} the live document is {}; {} parsed once before the updates returns {} on it but the query string returns {} on an equal, freshly built document", sq.iter().map(|(p, v)| format!("{} := {}", paths[*p], values[*v])).collect::<Vec<_>>(), live, q, k, b),
+                                json!({"kind": "update-history", "class": "update history (kept parsed query)", "doc": d0, "writes": sq.iter().map(|(p, v)| json!([paths[*p], values[*v]])).collect::<Vec<_>>(), "query": q}),
+                            );
+                        }
                         if a != b {
                             acc.viol(
                                 format!("after the in-place updates {:?} the live document is {}; {} returns {} on it but {} on an equal, freshly built document", sq.iter().map(|(p, v)| format!("{} := {}", paths[*p], values[*v])).collect::<Vec<_>>(), live, q, a, b),
@@ -486,12 +633,21 @@ pub fn replay_update_history(case: &Value, _run: &Run) -> Acc {
     let mut acc = Acc::new();
     let mut live = case["doc"].clone();
     let q = case["query"].as_str().unwrap_or("$");
+    let kept = imp::parse(q).ok().and_then(|r| r.ok());
     let _ = pv(q, &live);
+    if let Some(jq) = &kept {
+        let _ = pv_parsed(jq, &live);
+    }
     for w in case["writes"].as_array().cloned().unwrap_or_default() {
-        if let Some(h) = live.reference_mut(w[0].as_str().unwrap_or("$").to_string()) {
+        if w[0] == "<restore>" {
+            live.clone_from(&case["doc"]);
+        } else if let Some(h) = live.reference_mut(w[0].as_str().unwrap_or("$").to_string()) {
             *h = w[1].clone();
         }
         let _ = pv(q, &live);
+        if let Some(jq) = &kept {
+            let _ = pv_parsed(jq, &live);
+        }
     }
     let fresh: Value = serde_json::from_str(&serde_json::to_string(&live).unwrap()).unwrap();
     let (a, b) = (pv(q, &live), pv(q, &fresh));
@@ -501,6 +657,13 @@ pub fn replay_update_history(case: &Value, _run: &Run) -> Acc {
     println!("on fresh equal : {}", b);
     if a != b {
         acc.viol(format!("{} differs between the live document and an equal fresh one: {} vs {}", q, a, b), case.clone());
+    }
+    if let Some(jq) = &kept {
+        let k = pv_parsed(jq, &live);
+        println!("kept parsed    : {}", k);
+        if k != b {
+            acc.viol(format!("{} parsed once before the updates returns {} on the live document, {} on an equal fresh one", q, k, b), case.clone());
+        }
     }
     acc
 }
@@ -853,10 +1016,34 @@ pub fn replay_history(case: &Value, _run: &Run) -> Acc {
     if idx.is_empty() {
         return acc;
     }
+    let ctx = HistCtx::new();
+    if case["class"] == "in-process window" && !case["first"].is_null() {
+        let n = ops.len();
+        let baseline: Vec<String> = match (0..n).map(|i| run_child(&[i])).collect::<Result<Vec<_>, _>>() {
+            Ok(b) => b,
+            Err(e) => {
+                eprintln!("replay failed: {}", e);
+                std::process::exit(2);
+            }
+        };
+        match run_windows_child(case["first"].as_u64().unwrap_or(0) as usize, case["w"].as_u64().unwrap_or(3) as usize, &baseline) {
+            Ok(r) => {
+                println!("windows child: {}", r);
+                if !r["violation"].is_null() {
+                    acc.viol(format!("windows starting with operation {}: {}", case["first"], r["violation"]), case.clone());
+                }
+            }
+            Err(e) => {
+                eprintln!("replay failed: {}", e);
+                std::process::exit(2);
+            }
+        }
+        return acc;
+    }
     let last = *idx.last().unwrap();
     let base = run_child(&[last]);
     let hist = run_child(&idx);
-    println!("history          : {:?}", idx.iter().map(|i| format!("{:?} {}", ops[*i], QUERIES[ops[*i].query as usize])).collect::<Vec<_>>());
+    println!("history          : {:?}", idx.iter().map(|i| format!("{:?} {}", ops[*i], ctx.queries[ops[*i].query as usize])).collect::<Vec<_>>());
     println!("alone            : {:?}", base);
     println!("after the history: {:?}", hist);
     if base != hist {
